@@ -140,11 +140,13 @@ def smooth_case(ctx, s, idx, bmkind, traces):
     gen = torch.Generator().manual_seed((ctx.seed * 6151 + idx * 7907 + 3) % (2 ** 31))
     sde = H.SmoothSDE(noise, d, m, seed=ctx.seed * 17 + idx)
     y0 = torch.randn(b, d, generator=gen, dtype=F64).requires_grad_()
-    ts = torch.tensor([o * dt for o in outs], dtype=F64)
+    # dyadic grids: the time origin rotates, including time axes far from zero relative to the step (all exact)
+    t0 = [0.0, 0.0, 16384.0, -4096.0][idx % 4] if dyadic else 0.0
+    ts = torch.tensor([t0 + o * dt for o in outs], dtype=F64)
     if bmkind == "grid":
-        base = H.GridBrownian(0.0, dt, torch.randn(n, b, m, generator=gen, dtype=F64) * math.sqrt(dt))
+        base = H.GridBrownian(t0, dt, torch.randn(n, b, m, generator=gen, dtype=F64) * math.sqrt(dt))
     else:
-        base = torchsde.BrownianInterval(t0=0.0, t1=float(ts[-1]), size=(b, m), dtype=F64,
+        base = torchsde.BrownianInterval(t0=t0, t1=float(ts[-1]), size=(b, m), dtype=F64,
                                          entropy=ctx.seed * 977 + idx)
     T = len(outs)
     w = H.weights_tensor(gen, (T, b, d))
@@ -178,8 +180,8 @@ def smooth_case(ctx, s, idx, bmkind, traces):
     nq_fwd = sum(1 for e in events[:n_fwd] if e["k"] == "bm")
     nq_bwd = sum(1 for e in events[n_fwd:] if e["k"] == "bm")
     ctx.case(("smooth", noise, b, d, m, hden, tuple(outs), kind, bmkind),
-             sample=dict(key, batch=b, d=d, m=m, hden=hden, outs=outs, loss=kind, err=err), trace=dyadic)
-    if dyadic:
+             sample=dict(key, batch=b, d=d, m=m, hden=hden, outs=outs, loss=kind, err=err, t0=t0), trace=dyadic and t0 == 0.0)
+    if dyadic and t0 == 0.0:                 # (the trace events are in ticks from zero)
         traces.append(dict(scn=H.trace_scn(1, outs, wset, "revheun"), ev=events, key=key))
     if not torch.equal(ys.detach(), ys2.detach()):
         H.violation_once(ctx, dict(key, clause="forward_equal"), "sdeint_adjoint and sdeint (reversible_heun) outputs differ")
